@@ -6,9 +6,19 @@ the kernel can evaluate everything.
 Modelled exactly: `str.split(sep)`, `str.split(sep, 1)`, `str.count`, `str.strip()` (Python's full Unicode
 white-space set), `str.find` / `str.rfind` of one character, slicing `s[a:b]` with Python's negative-index
 rule, `str.startswith`, `str(int)`.
-Modelled on a documented sub-grammar (outside it the model answers `ValueError`, the generators stay inside):
-`int(str)`  = ws* [+-]? digit+ ws*            (no `_` separators, ASCII digits only)
-`float(str)`= ws* [+-]? (digit+ [. digit*] | . digit+) ([eE] [+-]? digit+)? ws*   (no `inf`/`nan`/`_`)
+`int(str)` / `float(str)` as CPython 3.12 implements them on `str` arguments (`PyLong_FromUnicodeObject`,
+`PyFloat_FromString`):
+  1. `_PyUnicode_TransformDecimalAndSpaceToASCII`: every non-ASCII white-space character becomes a blank, every
+     non-ASCII decimal digit (category Nd, `decZeros`) its ASCII digit, any other non-ASCII character `?`;
+     ASCII characters are kept — so \x1c–\x1f, which `str.strip()` removes, are NOT white space for a number;
+  2. ASCII white space (\t \n \x0b \x0c \r blank) is removed at both ends;
+  3. underscores are legal exactly between two digits and are dropped (`deUs`);
+  4. `int`  : [+-]? digit+                                  (leading zeros allowed, base 10)
+     `float`: [+-]? (digit+ [. digit*] | . digit+) ([eE] [+-]? digit+)?    — or [+-]? (inf | infinity | nan), any case.
+`readFloat` returns the exact value of the decimal literal.  WHERE MODEL AND `float()` PART WAYS (`floatNonFinite`):
+on the tokens inf / infinity / nan Python returns a non-finite double; the model has rationals only and answers
+ValueError.  These tokens are outside the dialect (the format has decimal numbers); the check replays them on the real
+reader.  (Likewise a literal beyond the double range, `1e400`, is `inf` for Python and its exact value here.)
 -/
 
 namespace Reamber.Osu
@@ -124,14 +134,61 @@ def takeSign : Str → Bool × Str
   | '+' :: r => (false, r)
   | r => (false, r)
 
-/-- `int(s)` on the documented sub-grammar -/
-def readInt (s : Str) : Except Err Int :=
-  let p := takeSign (strip s)
+def digitChar (d : Nat) : Char := Char.ofNat (48 + d)
+
+/-- the first code point of every run of ten Unicode decimal digits (category Nd, Unicode 15.0 = Python 3.12's
+`unicodedata`; the check compares this table with the running interpreter's on every run) -/
+def decZeros : List Nat :=
+  [0x30, 0x660, 0x6f0, 0x7c0, 0x966, 0x9e6, 0xa66, 0xae6, 0xb66, 0xbe6, 0xc66, 0xce6, 0xd66, 0xde6, 0xe50, 0xed0,
+   0xf20, 0x1040, 0x1090, 0x17e0, 0x1810, 0x1946, 0x19d0, 0x1a80, 0x1a90, 0x1b50, 0x1bb0, 0x1c40, 0x1c50, 0xa620,
+   0xa8d0, 0xa900, 0xa9d0, 0xa9f0, 0xaa50, 0xabf0, 0xff10, 0x104a0, 0x10d30, 0x11066, 0x110f0, 0x11136, 0x111d0,
+   0x112f0, 0x11450, 0x114d0, 0x11650, 0x116c0, 0x11730, 0x118e0, 0x11950, 0x11c50, 0x11d50, 0x11da0, 0x11f50,
+   0x16a60, 0x16ac0, 0x16b50, 0x1d7ce, 0x1d7d8, 0x1d7e2, 0x1d7ec, 0x1d7f6, 0x1e140, 0x1e2f0, 0x1e4f0, 0x1e950,
+   0x1fbf0]
+
+/-- `Py_UNICODE_TODECIMAL` -/
+def decVal? (c : Char) : Option Nat :=
+  match decZeros.find? (fun z => z ≤ c.toNat && c.toNat < z + 10) with
+  | some z => some (c.toNat - z)
+  | none => none
+
+/-- one character of `_PyUnicode_TransformDecimalAndSpaceToASCII` -/
+def foldChar (c : Char) : Char :=
+  if c.toNat < 128 then c
+  else if isWs c then ' '
+  else match decVal? c with
+    | some d => digitChar d
+    | none => '?'
+
+/-- \x1c–\x1f: white space for `str.strip()`, not for `int()` / `float()` -/
+def isSep (c : Char) : Bool := 28 ≤ c.toNat && c.toNat ≤ 31
+
+/-- drop the underscores of a numeric literal; each one must stand between two (ASCII) digits -/
+def deUs (prevDig : Bool) : Str → Option Str
+  | [] => some []
+  | c :: r =>
+    if c = '_' then
+      if prevDig && (match r with | d :: _ => isDig d | [] => false) then deUs false r else none
+    else (deUs (isDig c) r).map (c :: ·)
+
+/-- steps 1–3 of `int(str)` / `float(str)`: the ASCII literal that is parsed, or `none` (ValueError).
+A \x1c–\x1f anywhere in the text is an error (at the ends it is not stripped, inside it is no digit); without one,
+the white space of `str.strip()` and the white space of a number coincide. -/
+def numPrep (s : Str) : Option Str :=
+  if s.any isSep then none else deUs false ((strip s).map foldChar)
+
+/-- [+-]? digit+ -/
+def readIntA (t : Str) : Except Err Int :=
+  let p := takeSign t
   match readNat? p.2 with
   | some n => .ok (if p.1 then -(n : Int) else (n : Int))
   | none => .error .value
 
-def digitChar (d : Nat) : Char := Char.ofNat (48 + d)
+/-- `int(s)` for a `str` -/
+def readInt (s : Str) : Except Err Int :=
+  match numPrep s with
+  | some t => readIntA t
+  | none => .error .value
 
 /-- decimal digits of `n` (fuel = number of steps allowed; `showNat` gives enough) -/
 def showNatAux : Nat → Nat → Str
@@ -160,9 +217,9 @@ def readExp : Str → Option Int
       | none => none
     else none
 
-/-- `float(s)` on the documented sub-grammar, as the exact value of the decimal literal -/
-def readFloat (s : Str) : Except Err Rat :=
-  let p := takeSign (strip s)
+/-- [+-]? (digit+ [. digit*] | . digit+) ([eE] [+-]? digit+)?, as the exact value of the decimal literal -/
+def readFloatA (t : Str) : Except Err Rat :=
+  let p := takeSign t
   let ip := p.2.span isDig
   let fr : Str × Str := match ip.2 with
     | '.' :: r => r.span isDig
@@ -174,6 +231,32 @@ def readFloat (s : Str) : Except Err Rat :=
     let m : Rat := (natOfDigits 0 (ip.1 ++ fr.1) : Nat) / pow10 fr.1.length
     let v : Rat := if e < 0 then m / pow10 e.natAbs else m * pow10 e.natAbs
     .ok (if p.1 then -v else v)
+
+/-- `float(s)` for a `str`, on every token that denotes a finite number; ValueError otherwise (see `floatNonFinite`) -/
+def readFloat (s : Str) : Except Err Rat :=
+  match numPrep s with
+  | some t => readFloatA t
+  | none => .error .value
+
+/-- the non-finite doubles -/
+inductive NonFin where
+  | posInf | negInf | nan
+deriving Repr, DecidableEq, Inhabited
+
+def lowerChar (c : Char) : Char := if 65 ≤ c.toNat ∧ c.toNat ≤ 90 then Char.ofNat (c.toNat + 32) else c
+
+/-- `_Py_parse_inf_or_nan`: the tokens on which Python's `float()` returns ±inf / nan — [+-]? (inf | infinity | nan),
+case-insensitive, after the same preparation (white space, no underscore can be legal here).  On exactly these tokens
+the model's `readFloat` (ValueError) and the code (a non-finite double) part ways: `floatNonFinite_rejected`. -/
+def floatNonFinite (s : Str) : Option NonFin :=
+  match numPrep s with
+  | none => none
+  | some t =>
+    let p := takeSign t
+    let w := p.2.map lowerChar
+    if w = "inf".toList ∨ w = "infinity".toList then some (if p.1 then .negInf else .posInf)
+    else if w = "nan".toList then some .nan
+    else none
 
 /-- Python `int(x)` on a number: truncation toward zero -/
 def pyTrunc (q : Rat) : Int := if 0 ≤ q then q.floor else -((-q).floor)
